@@ -420,7 +420,9 @@ fn kernel_case(src: &mut Src, ctx: &mut RunCtx) -> RunResult {
     if src.chance(1, 4) {
         let sr = *src.pick(&[8000.0f32, 44100.0, 48000.0, 50000.0]);
         let cutoff = sr / *src.pick(&[4.0f32, 8.0, 20.0, 45.0]);
-        let tw = sr / *src.pick(&[10.0f32, 50.0, 100.0, 400.0]);
+        // Transition widths over a dense range, so that every tap count parity
+        // class (ntaps mod 4) and small as well as large designs come up.
+        let tw = sr / if src.coin() { src.range(2, 90) as f32 } else { *src.pick(&[10.0f32, 50.0, 100.0, 400.0]) };
         let wt = if src.coin() { rustradio::window::WindowType::Hamming } else { rustradio::window::WindowType::HammingParm(0.5) };
         let t = match crate::engine::catch(|| rustradio::fir::low_pass(sr, cutoff, tw, &wt)) {
             Ok(t) => t,
@@ -433,7 +435,8 @@ fn kernel_case(src: &mut Src, ctx: &mut RunCtx) -> RunResult {
         }
         let sum: f64 = t.iter().map(|&x| x as f64).sum();
         let amax: f64 = t.iter().map(|&x| (x as f64).abs()).sum();
-        if (sum - 1.0).abs() > 1e-4 * amax.max(1.0) {
+        // f32 taps: the sum carries about n*eps of rounding.
+        if (sum - 1.0).abs() > (n as f64 * 2e-7 + 2e-6) * amax.max(1.0) {
             return ctx.tolerate(Violation::new("C11:low-pass-dc-gain", format!("low_pass({sr},{cutoff},{tw}) taps sum to {sum}, expected unit DC gain")));
         }
         for i in 0..n / 2 {
